@@ -161,6 +161,7 @@ type FactEngine struct {
 	w        *World
 	resCache map[*ssa.Function][]relFact
 	ensCache map[*ssa.Function][]relFact
+	ensFalse map[*ssa.Function][]relFact
 	busy     map[*ssa.Function]bool
 	callers  map[*ssa.Function][]ssa.CallInstruction // static call sites in scope
 	inScope  func(*ssa.Function) bool
@@ -168,7 +169,7 @@ type FactEngine struct {
 }
 
 func NewFactEngine(w *World, fns []*ssa.Function) *FactEngine {
-	fe := &FactEngine{w: w, resCache: map[*ssa.Function][]relFact{}, ensCache: map[*ssa.Function][]relFact{}, busy: map[*ssa.Function]bool{}, callers: map[*ssa.Function][]ssa.CallInstruction{}}
+	fe := &FactEngine{w: w, resCache: map[*ssa.Function][]relFact{}, ensCache: map[*ssa.Function][]relFact{}, ensFalse: map[*ssa.Function][]relFact{}, busy: map[*ssa.Function]bool{}, callers: map[*ssa.Function][]ssa.CallInstruction{}}
 	set := map[*ssa.Function]bool{}
 	for _, f := range fns {
 		set[f] = true
@@ -230,11 +231,22 @@ func isValidatorSig(fn *ssa.Function) bool {
 }
 
 // ensures computes the facts on parameter-rooted paths that hold at every success return of fn.
-func (fe *FactEngine) ensures(fn *ssa.Function) []relFact {
+func (fe *FactEngine) ensures(fn *ssa.Function) []relFact { return fe.ensuresT(fn, true) }
+
+// ensuresT: facts that hold whenever fn reports `truth` (for error-returning functions truth = success;
+// for bool functions also the facts implied by a FALSE result, e.g. `if isIncomplete(p) { return err }`).
+func (fe *FactEngine) ensuresT(fn *ssa.Function, truth bool) []relFact {
 	if fn == nil || len(fn.Blocks) == 0 || (!isRepoFunc(fn) && !fe.anyPkg) || !isValidatorSig(fn) {
 		return nil
 	}
-	if r, ok := fe.ensCache[fn]; ok {
+	if !truth {
+		if errIndex(fn) >= 0 {
+			return nil
+		}
+		if r, ok := fe.ensFalse[fn]; ok {
+			return r
+		}
+	} else if r, ok := fe.ensCache[fn]; ok {
 		return r
 	}
 	if fe.busy[fn] {
@@ -254,12 +266,19 @@ func (fe *FactEngine) ensures(fn *ssa.Function) []relFact {
 	var out []relFact
 	var rets []*ssa.Return
 	for _, r := range returnsOf(fn) {
-		if successReturn(r) {
+		if truth && successReturn(r) {
+			rets = append(rets, r)
+		}
+		if !truth && mayReturnBool(r, false) {
 			rets = append(rets, r)
 		}
 	}
 	if len(rets) == 0 {
-		fe.ensCache[fn] = nil
+		if truth {
+			fe.ensCache[fn] = nil
+		} else {
+			fe.ensFalse[fn] = nil
+		}
 		return nil
 	}
 	// bool validators written as an expression (`return in != nil && len(in.Hash) == 32`): what the
@@ -267,7 +286,7 @@ func (fe *FactEngine) ensures(fn *ssa.Function) []relFact {
 	implied := map[*ssa.Return][]pfact{}
 	if errIndex(fn) < 0 {
 		for _, r := range rets {
-			implied[r] = fe.boolResultFacts(fn, r)
+			implied[r] = fe.boolResultFacts(fn, r, truth)
 			for _, f := range implied[r] {
 				cands[f] = true
 			}
@@ -298,8 +317,26 @@ func (fe *FactEngine) ensures(fn *ssa.Function) []relFact {
 			out = append(out, relFact{param: pi, rel: rel, kind: f.kind, min: f.min})
 		}
 	}
-	fe.ensCache[fn] = out
+	if truth {
+		fe.ensCache[fn] = out
+	} else {
+		fe.ensFalse[fn] = out
+	}
 	return out
+}
+
+// mayReturnBool: can the bool returned at r be `want`?
+func mayReturnBool(r *ssa.Return, want bool) bool {
+	if len(r.Results) != 1 {
+		return false
+	}
+	vals, _ := resultVals(r, 0)
+	for _, v := range vals {
+		if bv, isC := boolConst(v); !isC || bv == want {
+			return true
+		}
+	}
+	return false
 }
 
 func splitParam(fn *ssa.Function, path string) (int, string, bool) {
@@ -342,6 +379,16 @@ func (fe *FactEngine) factsOnEdgeDeep(fn *ssa.Function, e Edge) []pfact {
 		case fTrue:
 			if c, ok := strip(f.x).(*ssa.Call); ok {
 				call = c
+			}
+		case fFalse:
+			if c, ok := strip(f.x).(*ssa.Call); ok {
+				if cal := c.Call.StaticCallee(); cal != nil {
+					for _, rf := range fe.ensuresT(cal, false) {
+						if rf.param < len(c.Call.Args) {
+							out = append(out, pfact{kind: rf.kind, path: pathOf(c.Call.Args[rf.param]) + rf.rel, min: rf.min})
+						}
+					}
+				}
 			}
 		}
 		if call == nil {
@@ -586,19 +633,19 @@ func condPFacts(cond ssa.Value, truth bool) []pfact {
 // φ-nodes (short-circuit && / ||): an incoming constant false cannot be the true result; every other
 // entry contributes its own condition and the facts that hold when its edge is taken; the result is
 // the intersection over the entries.
-func (fe *FactEngine) boolResultFacts(fn *ssa.Function, r *ssa.Return) []pfact {
+func (fe *FactEngine) boolResultFacts(fn *ssa.Function, r *ssa.Return, truth bool) []pfact {
 	if len(r.Results) != 1 {
 		return nil
 	}
 	var acc []pfact
 	first := true
 	for _, pe := range phiEntries(r.Results[0]) {
-		if bv, isC := boolConst(pe.val); isC && !bv {
+		if bv, isC := boolConst(pe.val); isC && bv != truth {
 			continue
 		}
 		var here []pfact
 		if _, isC := boolConst(pe.val); !isC {
-			here = append(here, condPFacts(pe.val, true)...)
+			here = append(here, condPFacts(pe.val, truth)...)
 		}
 		if pe.edge != nil {
 			// facts on the edge itself and facts that must hold at its source block
